@@ -1,8 +1,20 @@
 (** Evaluator for C15: the byte-identity and race observations are made by the
     harness on the real binary; the permutation clause compares the cell maps of
     two runs here. The structural model (Builder / ToTables) is tied to the code
-    by Corr/RunC14.v; the theorems are in Properties/C15.v. *)
-From Perf Require Import Base.Bytes Base.Sx Base.B64 Base.SxF.
+    by Corr/RunC14.v; the theorems are in Properties/C15.v.
+
+    A second case kind (tag 7, "vary-warnings"): the projected measurements of a
+    run (table / row / column / residue ids as in C14), the in-process tables
+    (ids, key values, abstract table of Model/Render.v) and what the real binary
+    printed in its first run (text, csv rows, csv warning stream), plus the
+    harness' verdict on byte-identity of all repeated runs.  The warning
+    "benchmarks vary in ..." of every cell is DERIVED here from the residue keys
+    of the cell's own measurements and put into the abstract tables; the
+    observed text (footnote marks and footnote list) and csv warnings must be
+    what the rendering model (Render / RenderRun, tied to the code by C16) gives
+    for those tables. *)
+From Perf Require Import Base.Bytes Base.Sx Base.B64 Base.SxF Model.BenchTab Model.Render.
+From Perf Require Corr.RunC14 Corr.RunC16.
 
 Record cellobs := mkCO {
   co_key : bytes; co_sample : list b64; co_centre : b64; co_lo : b64; co_hi : b64;
@@ -55,8 +67,102 @@ Fixpoint all2 (a b : list cellobs) : bool :=
 
 Definition prop_ok (c : case) : bool := k_identical c && k_race_ok c && all2 (k_a c) (k_b c).
 
+(** * vary-warnings *)
+Record wtab := mkWT { wt_id : N; wt_rows : list N; wt_cols : list N; wt_key : list bytes; wt_abs : rtable }.
+Record wcase := mkWC {
+  w_identical : bool; w_race_ok : bool; w_runs : N;
+  w_meas : list meas; w_resvals : list (N * list bytes); w_fields : list bytes;
+  w_keyfields : list bytes; w_tabs : list wtab;
+  w_text : bytes; w_recs : list (list bytes); w_warn : bytes }.
+
+Definition as_wtab (s : sx) : option wtab :=
+  match s with
+  | SL [t; rows; cols; key; abs] =>
+      do t <- as_N t; do rows <- as_list as_N rows; do cols <- as_list as_N cols;
+      do key <- as_list as_b key; do abs <- RunC16.as_rtable abs;
+      Some (mkWT t rows cols key abs)
+  | _ => None
+  end.
+Definition decode_w (s : sx) : option wcase :=
+  match s with
+  | SL [SZ 7; i; r; n; ms; rv; fl; kf; tabs; SB text; recs; SB warn] =>
+      do i <- as_bool i; do r <- as_bool r; do n <- as_N n;
+      do ms <- as_list RunC14.as_meas ms;
+      do rv <- as_list (as_pair as_N (as_list as_b)) rv; do fl <- as_list as_b fl;
+      do kf <- as_list as_b kf; do tabs <- as_list as_wtab tabs;
+      do recs <- as_list (as_list as_b) recs;
+      Some (mkWC i r n ms rv fl kf tabs text recs warn)
+  | _ => None
+  end.
+
+Definition vary_prefix : bytes := bs "benchmarks vary in ".
+Definition is_vary (w : bytes) : bool := has_prefix w vary_prefix.
+Fixpoint join_cs (l : list bytes) : bytes :=
+  match l with [] => [] | [x] => x | x :: r => x ++ bs ", " ++ join_cs r end.
+
+Section Vary.
+  Variable c : wcase.
+  (** summarizeCell's warning for a set of residue keys *)
+  Definition vary_of (res : list N) : list bytes :=
+    match map (fun i => nth i (w_fields c) [])
+              (nonsingular (RunC14.lookup_resvals (w_resvals c)) (length (w_fields c)) res) with
+    | [] => []
+    | names => [vary_prefix ++ join_cs names]
+    end.
+  (** the model: the residue set Builder.Add collected in the cell *)
+  Definition model_vary (ts : list btab) (t r cl : N) : list bytes := vary_of (lookup_res ts t r cl).
+  (** the specification: the residue keys of the measurements that fall into the
+      cell, straight from the measurement list *)
+  Definition spec_vary (t r cl : N) : list bytes :=
+    vary_of (dedup_first (map m_res (filter (m_is t r cl) (w_meas c)))).
+
+  Definition subst_cell (vary : list bytes) (oc : option rcell) : option rcell :=
+    option_map (fun x => mkRC (rc_csv x) (rc_txt x) (rc_range x)
+                              (filter (fun w => negb (is_vary w)) (rc_swarn x) ++ vary)
+                              (rc_mwarn x) (rc_cmp x)) oc.
+  Definition subst_tab (f : N -> N -> N -> list bytes) (w : wtab) : rtable :=
+    let a := wt_abs w in
+    mkRT (rt_unit a) (rt_sumlabel a) (rt_nf a) (rt_cols a)
+         (map (fun '(rid, (label, cells)) =>
+                 (label, map (fun '(cid, oc) => subst_cell (f (wt_id w) rid cid) oc) (combine (wt_cols w) cells)))
+              (combine (wt_rows w) (rt_rows a)))
+         (rt_sums a).
+  Definition shape_ok (w : wtab) : bool :=
+    Nat.eqb (length (wt_rows w)) (length (rt_rows (wt_abs w)))
+    && forallb (fun rw => Nat.eqb (length (wt_cols w)) (length (snd rw))) (rt_rows (wt_abs w)).
+
+  (** the in-process tables carry, cell by cell, the model's warning *)
+  Definition cell_warn_matches (f : N -> N -> N -> list bytes) (w : wtab) : bool :=
+    forallb (fun '(rid, (_, cells)) =>
+               forallb (fun '(cid, oc) =>
+                          match oc with
+                          | Some x => list_eqb beq (filter is_vary (rc_swarn x)) (f (wt_id w) rid cid)
+                          | None => true
+                          end) (combine (wt_cols w) cells))
+            (combine (wt_rows w) (rt_rows (wt_abs w))).
+
+  (** what the binary printed is the rendering of the tables whose cells carry [f]'s warnings *)
+  Definition rendering_matches (f : N -> N -> N -> list bytes) : bool :=
+    RunC16.corr_ok (RunC16.KRun (w_keyfields c) (map (fun w => (wt_key w, subst_tab f w)) (w_tabs c))
+                                (w_text c) (w_recs c) (w_warn c)).
+
+  Definition corr_ok_w : bool :=
+    let ts := build (w_meas c) in
+    forallb shape_ok (w_tabs c) && forallb (cell_warn_matches (model_vary ts)) (w_tabs c).
+  Definition prop_ok_w : bool :=
+    w_identical c && w_race_ok c && forallb shape_ok (w_tabs c) && rendering_matches spec_vary.
+End Vary.
+
 Definition run_case (s : sx) : N :=
-  match decode s with
-  | Some c => code_of (prop_ok c) (prop_ok c)
-  | None => code_undecodable
+  match s with
+  | SL (SZ 7 :: _) =>
+      match decode_w s with
+      | Some c => code_of (corr_ok_w c) (prop_ok_w c)
+      | None => code_undecodable
+      end
+  | _ =>
+      match decode s with
+      | Some c => code_of (prop_ok c) (prop_ok c)
+      | None => code_undecodable
+      end
   end.
